@@ -79,27 +79,32 @@ PROPS = {
     "C05": dict(corpora=["stream_headers", "stream_errors", "suite"], prefix="C05."),
     "C06": dict(corpora=["router", "router_wild"], prefix="C06."),
     "C07": dict(corpora=["restbind", "httpbody", "restfield"], prefix="C07."),
-    "C08": dict(corpora=["stream_chunks"], prefix="C08.",
+    "C08": dict(corpora=["stream_chunks", "limits"], prefix="C08.",
                 design=[("MCFraming.tla", "framing_%s_fixed.cfg" % p) for p in ("R1", "R2", "R3", "R4", "R5", "R5e")] +
                        [("MCFramingW.tla", "framingw_%s.cfg" % p) for p in ("W1_reframe", "W2_reframe_trailer", "W3_strip",
                                                                            "W4_strip_trailer", "W5_synth", "W6_measure", "W7_pass")] +
                        # byte-grain model of the converting writer (transformingWriter): every segmentation, stop and size class
                        [("MCFramingT.tla", "framingt_%s.cfg" % p) for p in ("T1_recode", "T2_recode_trailer", "T3_undecodable", "T6_strip",
-                                                                           "T7_unenv_to_env", "T9_unenv_to_unenv")],
+                                                                           "T7_unenv_to_env", "T9_unenv_to_unenv")] +
+                       # ... and of the converting reader (transformingReader): every handler buffer size at every Read
+                       [("MCFramingTR.tla", "framingtr_%s.cfg" % p) for p in ("R1_env", "R3_undecodable", "R5_unenv", "R6_none_prep",
+                                                                             "R7_none_noprep", "R8_single_empty")],
                 # what-if configurations that MUST fail (guards against a vacuous model): the short-read defect of the
                 # pinned tree on the request side, a right-aligned envelope prefix on the response side
-                whatif=[("MCFraming.tla", "framing_R2_asbuilt.cfg"), ("MCFramingW.tla", "framingw_W1_reframe_rightcopy.cfg")]),
+                whatif=[("MCFraming.tla", "framing_R2_asbuilt.cfg"), ("MCFramingW.tla", "framingw_W1_reframe_rightcopy.cfg"),
+                        ("MCFramingTR.tla", "framingtr_R1_env_restart.cfg"), ("MCFramingTR.tla", "framingtr_R1_empty_is_eof.cfg")]),
     "C09": dict(corpora=["stream_faults", "stream_zzfaults", "httpbody"], prefix="C09.",
                 # the converting writer: a handler that stops inside an envelope or a message is reported (CutIsReported);
                 # the what-if whose Close looks at a partial envelope only must be rejected
-                design=[("MCFramingT.tla", "framingt_T1_recode.cfg"), ("MCFramingT.tla", "framingt_T2_recode_trailer.cfg")],
+                design=[("MCFramingT.tla", "framingt_T1_recode.cfg"), ("MCFramingT.tla", "framingt_T2_recode_trailer.cfg"),
+                        ("MCFramingTR.tla", "framingtr_R2_env_cut.cfg")],
                 whatif=[("MCFramingT.tla", "framingt_T1_close_ignores_payload.cfg")]),
     "C10": dict(corpora=["limits"], prefix="C10.",
                 # the converting writer never holds more than L bytes of a message, whatever the Write sizes (BufferBounded,
                 # OversizeRefused); the what-if that checks the announced length only at flush time must be rejected
                 design=[("MCFramingT.tla", "framingt_T4_oversize_in.cfg"), ("MCFramingT.tla", "framingt_T5_oversize_out.cfg"),
-                        ("MCFramingT.tla", "framingt_T8_unenv_oversize.cfg")],
-                whatif=[("MCFramingT.tla", "framingt_T4_limit_at_flush.cfg")]),
+                        ("MCFramingT.tla", "framingt_T8_unenv_oversize.cfg"), ("MCFramingTR.tla", "framingtr_R4_oversize.cfg")],
+                whatif=[("MCFramingT.tla", "framingt_T4_limit_at_flush.cfg"), ("MCFramingTR.tla", "framingtr_R4_limit_unchecked.cfg")]),
     "C20": dict(corpora=["schema", "grpcwrap", "grpcwrap_json"], corpora_thorough=["schema", "schema_errors", "grpcwrap", "grpcwrap_errors", "grpcwrap_json"], prefix="C20."),
     "C11": dict(corpora=["stream_hostile", "stream_faults", "stream_errors", "stream_reject", "stream_get", "limits"], prefix="C11."),
     "C12": dict(corpora=["timeout"], prefix="C12.",
